@@ -18,14 +18,11 @@ All theorems are about the definitions of `SageModel/Model/C08.lean`, for every 
 every list length. Numbers: an arbitrary linear order (`reorder` facts), exact rationals where masses are
 added (`comparator_off_duplicates`); f32 rounding is not covered.
 
-**Assumption A-sort** (about rayon's `par_sort_unstable_by`, not a theorem): driven by a comparator that is a
-strict weak order outside classes of mutually indistinguishable elements, the sort returns a permutation in
-which every class is contiguous and the classes are in order. `comparator_off_duplicates` proves that the
-code's comparator `cmpActual` is of that kind (it coincides with the lexicographic key order `cmpKey` on
-peptides with different keys), `comparator_faulty_on_duplicates` shows that on key-equal duplicates it answers
-`Less` in both directions. The model sorts with a stable merge sort by `cmpKey`; `reorder_sort_irrelevant`
-proves that any other arrangement inside the classes of key-equal duplicates gives the same database (the
-merge combines every per-occurrence field by AND / min / sorted union).
+**Assumption A-sort** (about `sort_unstable_by` / rayon's `par_sort_unstable_by`, not a theorem): driven by a
+comparator that is a total pre-order, the sort returns a permutation of its input that is sorted by it. The
+comparators of the code are such (`comparator_total_preorder`: the repaired `Peptide::initial_sort` and the mass
+comparator), and `reorder_sort_irrelevant` / `digest_sort_irrelevant` prove that EVERY such result gives the same
+database, so the stable merge sorts of the model are one admissible choice among equals.
 
 **Assumption barrier**: the lookups of the target set happen after the insert phase has completed
 (`par_iter().for_each()` returns before the next statement runs).
@@ -202,17 +199,36 @@ theorem lawful_cmpBool : Lawful cmpBool :=
 section key
 variable {α : Type} [LinearOrder α]
 
-abbrev Key (α : Type) := α × (List Nat × (List α × (Option α × Option α)))
+/-- the identity of a peptide form: sequence, modifications, nterm, cterm (no mass) -/
+abbrev Key (α : Type) := List Nat × (List α × (Option α × Option α))
 
 def keyOf (p : DbPep α) : Key α :=
-  (p.core.mono, p.core.sequence, p.core.mods, p.core.nterm, p.core.cterm)
+  (p.core.sequence, p.core.mods, p.core.nterm, p.core.cterm)
 
 def cmpK : Key α → Key α → Ordering :=
-  thenPair cmpOf (thenPair (lexList cmpNat) (thenPair (lexList cmpOf) (thenPair (cmpOpt cmpOf) (cmpOpt cmpOf))))
+  thenPair (lexList cmpNat) (thenPair (lexList cmpOf) (thenPair (cmpOpt cmpOf) (cmpOpt cmpOf)))
 
 theorem lawful_cmpK : Lawful (cmpK : Key α → Key α → Ordering) :=
-  lawful_thenPair lawful_cmpOf (lawful_thenPair (lawful_lexList lawful_cmpNat)
-    (lawful_thenPair (lawful_lexList lawful_cmpOf) (lawful_thenPair (lawful_cmpOpt lawful_cmpOf) (lawful_cmpOpt lawful_cmpOf))))
+  lawful_thenPair (lawful_lexList lawful_cmpNat)
+    (lawful_thenPair (lawful_lexList lawful_cmpOf) (lawful_thenPair (lawful_cmpOpt lawful_cmpOf) (lawful_cmpOpt lawful_cmpOf)))
+
+/-- mass first, then identity: the key of the second sort -/
+def mkeyOf (p : DbPep α) : α × Key α := (p.core.mono, keyOf p)
+
+def cmpMK : α × Key α → α × Key α → Ordering := thenPair cmpOf cmpK
+
+theorem lawful_cmpMK : Lawful (cmpMK : α × Key α → α × Key α → Ordering) := lawful_thenPair lawful_cmpOf lawful_cmpK
+
+theorem cmpMassKey_eq (a b : DbPep α) : cmpMassKey a b = cmpMK (mkeyOf a) (mkeyOf b) := rfl
+
+theorem massKeyLe_trans (a b c : DbPep α) (h1 : massKeyLe a b = true) (h2 : massKeyLe b c = true) :
+    massKeyLe a c = true := by
+  simp only [massKeyLe, cmpMassKey_eq, bne_iff_ne] at *
+  exact lawful_cmpMK.le_trans h1 h2
+
+theorem massKeyLe_total (a b : DbPep α) : (massKeyLe a b || massKeyLe b a) = true := by
+  simp only [massKeyLe, cmpMassKey_eq, Bool.or_eq_true, bne_iff_ne]
+  exact lawful_cmpMK.le_total _ _
 
 theorem cmpKey_eq (a b : DbPep α) : cmpKey a b = cmpK (keyOf a) (keyOf b) := rfl
 
@@ -293,14 +309,62 @@ theorem sorted_mergeSort_key (l : List (DbPep α)) : (l.mergeSort keyLe).Pairwis
   intro a b h
   simpa [keyLe, cmpKey_eq, KeyLe] using h
 
-/-- the database is strictly increasing in the full key -/
-theorem reorder_strict (l : List (DbPep α)) : (reorder l).Pairwise KeyLt := by
+/-- strictly increasing in (mass, identity) -/
+def MKLt (a b : DbPep α) : Prop := cmpMK (mkeyOf a) (mkeyOf b) = .lt
+def MKLe (a b : DbPep α) : Prop := cmpMK (mkeyOf a) (mkeyOf b) ≠ .gt
+/-- different identities -/
+def KeyNe (a b : DbPep α) : Prop := keyOf a ≠ keyOf b
+
+theorem keyNe_of_keyLt {a b : DbPep α} (h : KeyLt a b) : KeyNe a b := by
+  intro e; unfold KeyLt at h; rw [e, lawful_cmpK.refl] at h; cases h
+
+theorem sorted_mergeSort_mk (l : List (DbPep α)) : (l.mergeSort massKeyLe).Pairwise MKLe := by
+  have := List.pairwise_mergeSort (le := massKeyLe) massKeyLe_trans massKeyLe_total l
+  refine this.imp ?_
+  intro a b h
+  simpa [massKeyLe, cmpMassKey_eq, MKLe] using h
+
+theorem pairwise_keyNe_perm {l l' : List (DbPep α)} (h : l.Perm l') (hp : l.Pairwise KeyNe) : l'.Pairwise KeyNe :=
+  (h.pairwise_iff (fun {a b} (hab : KeyNe a b) => fun e => hab e.symm)).1 hp
+
+/-- sorted by (mass, identity) with pairwise different identities = strictly sorted -/
+theorem strict_of_sorted_ne {l : List (DbPep α)} (h1 : l.Pairwise MKLe) (h2 : l.Pairwise KeyNe) : l.Pairwise MKLt := by
+  refine (h1.and h2).imp ?_
+  intro a b ⟨hle, hne⟩
+  unfold MKLt
+  cases hc : cmpMK (mkeyOf a) (mkeyOf b) with
+  | lt => rfl
+  | gt => exact absurd hc hle
+  | eq =>
+    exfalso; apply hne
+    have := (lawful_cmpMK.eq_iff _ _).1 hc
+    simp only [mkeyOf, Prod.mk.injEq] at this
+    exact this.2
+
+theorem mkeyOf_finish (a : DbPep α) : mkeyOf (finishProteins a) = mkeyOf a := rfl
+
+/-- the entries of the database are the merged classes, protein lists cleaned -/
+theorem mem_reorder {l : List (DbPep α)} {e : DbPep α} :
+    e ∈ reorder l ↔ ∃ e0 ∈ dedupBy (l.mergeSort keyLe), finishProteins e0 = e := by
+  simp only [reorder, List.mem_map, List.mem_mergeSort]
+
+/-- no two entries of the database have the same identity -/
+theorem reorder_keyNe (l : List (DbPep α)) : (reorder l).Pairwise KeyNe := by
   unfold reorder
   rw [List.pairwise_map]
-  exact (dedupBy_strict _ (sorted_mergeSort_key l)).imp (fun h => by simpa [KeyLt, keyOf_finish] using h)
+  have h := (dedupBy_strict _ (sorted_mergeSort_key l)).imp (fun {a b} (h : KeyLt a b) => keyNe_of_keyLt h)
+  exact (pairwise_keyNe_perm (List.mergeSort_perm _ _).symm h).imp
+    (fun {a b} (h : KeyNe a b) => by simpa [KeyNe, keyOf_finish] using h)
 
-theorem mono_le_of_keyLt {a b : DbPep α} (h : KeyLt a b) : a.core.mono ≤ b.core.mono := by
-  unfold KeyLt cmpK thenPair at h
+/-- the database is strictly increasing in (mass, identity) -/
+theorem reorder_strict (l : List (DbPep α)) : (reorder l).Pairwise MKLt := by
+  apply strict_of_sorted_ne _ (reorder_keyNe l)
+  unfold reorder
+  rw [List.pairwise_map]
+  exact (sorted_mergeSort_mk _).imp (fun h => by simpa [MKLe, mkeyOf_finish] using h)
+
+theorem mono_le_of_mkLt {a b : DbPep α} (h : MKLt a b) : a.core.mono ≤ b.core.mono := by
+  unfold MKLt cmpMK thenPair at h
   rw [Ordering.then_eq_lt] at h
   rcases h with h | ⟨h, _⟩
   · exact le_of_lt ((cmpOf_lt_iff _ _).1 h)
@@ -655,6 +719,46 @@ theorem pos_merge (a b : DbPep α) :
     pos6Rank (merge a b).core.position = min (pos6Rank a.core.position) (pos6Rank b.core.position) :=
   pos6Rank_posMin _ _
 
+theorem minOf_le_left (a b : α) : minOf a b ≤ a := by
+  unfold minOf; split
+  · exact le_of_lt ‹_›
+  · exact le_refl _
+
+theorem minOf_le_right (a b : α) : minOf a b ≤ b := by
+  unfold minOf; split
+  · exact le_refl _
+  · exact not_lt.1 ‹_›
+
+theorem minOf_eq_or (a b : α) : minOf a b = a ∨ minOf a b = b := by
+  unfold minOf; split
+  · exact Or.inr rfl
+  · exact Or.inl rfl
+
+theorem mono_merge (a b : DbPep α) : (merge a b).core.mono = minOf a.core.mono b.core.mono := rfl
+
+/-- the mass of a merged class is the least mass of its members (and is the mass of one of them) -/
+theorem mono_mergeAll (cs : List (DbPep α)) : ∀ c0 : DbPep α,
+    (∀ p ∈ c0 :: cs, (mergeAll c0 cs).core.mono ≤ p.core.mono) ∧
+    ∃ p ∈ c0 :: cs, (mergeAll c0 cs).core.mono = p.core.mono := by
+  induction cs with
+  | nil => intro c0; simp [mergeAll]
+  | cons c cs ih =>
+    intro c0
+    simp only [mergeAll, List.foldl_cons] at ih ⊢
+    obtain ⟨h1, p, hp, h2⟩ := ih (merge c0 c)
+    have hm := mono_merge c0 c
+    refine ⟨fun q hq => ?_, ?_⟩
+    · rcases List.mem_cons.1 hq with rfl | hq
+      · exact le_trans (h1 _ List.mem_cons_self) (by rw [hm]; exact minOf_le_left _ _)
+      · rcases List.mem_cons.1 hq with rfl | hq
+        · exact le_trans (h1 _ List.mem_cons_self) (by rw [hm]; exact minOf_le_right _ _)
+        · exact h1 q (List.mem_cons_of_mem _ hq)
+    · rcases List.mem_cons.1 hp with rfl | hp
+      · rcases minOf_eq_or c0.core.mono c.core.mono with e | e
+        · exact ⟨c0, List.mem_cons_self, by rw [h2, hm, e]⟩
+        · exact ⟨c, List.mem_cons_of_mem _ List.mem_cons_self, by rw [h2, hm, e]⟩
+      · exact ⟨p, List.mem_cons_of_mem _ (List.mem_cons_of_mem _ hp), h2⟩
+
 /-! ### the order inside a class does not matter -/
 
 theorem sortStr_perm {l l' : List Str} (h : l.Perm l') : sortStr l = sortStr l' := by
@@ -676,7 +780,7 @@ theorem core_ext {a b : C06.Peptide α} (h0 : a.position = b.position) (h1 : a.s
 
 /-- **C08.merge_class_perm** — the entry made of a class of key-equal duplicates does not depend on the order
 in which the sort delivered them (in particular not on which one came first and was "kept"): proteins are a
-sorted union, `decoy` / `semi_enzymatic` are conjunctions, `missed_cleavages` / `position` are minima. -/
+sorted union, `decoy` / `semi_enzymatic` are conjunctions, `missed_cleavages` / `position` / mass are minima. -/
 theorem merge_class_perm (c0 d0 : DbPep α) (cs ds : List (DbPep α)) (hp : (c0 :: cs).Perm (d0 :: ds))
     (hk : ∀ p ∈ c0 :: cs, keyOf p = keyOf c0) :
     finishProteins (mergeAll c0 cs) = finishProteins (mergeAll d0 ds) := by
@@ -684,7 +788,14 @@ theorem merge_class_perm (c0 d0 : DbPep α) (cs ds : List (DbPep α)) (hp : (c0 
   have hkey : keyOf (mergeAll c0 cs) = keyOf (mergeAll d0 ds) := by
     rw [keyOf_mergeAll, keyOf_mergeAll, hkd]
   simp only [keyOf, Prod.mk.injEq] at hkey
-  obtain ⟨k1, k2, k3, k4, k5⟩ := hkey
+  obtain ⟨k2, k3, k4, k5⟩ := hkey
+  have k1 : (mergeAll c0 cs).core.mono = (mergeAll d0 ds).core.mono := by
+    obtain ⟨l1, p1, hp1, e1⟩ := mono_mergeAll cs c0
+    obtain ⟨l2, p2, hp2, e2⟩ := mono_mergeAll ds d0
+    have a1 := l2 p1 (hp.subset hp1)
+    have a2 := l1 p2 (hp.symm.subset hp2)
+    rw [← e1] at a1; rw [← e2] at a2
+    exact le_antisymm a2 a1
   have minEq : ∀ f : DbPep α → Nat, (∀ a b, f (merge a b) = min (f a) (f b)) →
       f (mergeAll c0 cs) = f (mergeAll d0 ds) := by
     intro f hf
@@ -815,7 +926,8 @@ theorem reorder_l : (reorder l).map (fun e => (e.core.mono, e.decoy, e.proteins)
   unfold reorder
   rw [List.mergeSort_of_pairwise hs]
   simp [l, mk, dedupBy, dedupGo, keyEq, cmpKey, cmpOf, lexList, cmpNat, cmpOpt, merge, finishProteins, dedupAdj,
-    sortStr, List.mergeSort, List.MergeSort.Internal.splitInTwo, leStr, cmpStr, Ordering.then]
+    sortStr, List.mergeSort, List.MergeSort.Internal.splitInTwo, leStr, cmpStr, Ordering.then, massKeyLe,
+    cmpMassKey, minOf, List.merge, posMin, pos6Rank]
 
 def par : C05.Params :=
   { mc := 0, minLen := 2, maxLen := 10
@@ -839,19 +951,16 @@ end Ex
 section props
 variable {α : Type} [LinearOrder α]
 
-/-- **C08.db_sorted_unique** — for ANY vector of peptides handed to `reorder_peptides` the result is sorted
-by mass and no two entries agree on (mass, sequence, modifications, nterm, cterm); in fact it is strictly
-increasing in that key. -/
+/-- **C08.db_sorted_unique** — for ANY vector of peptides handed to `reorder_peptides` — whatever masses its
+elements carry — the result is sorted by mass and NO TWO ENTRIES AGREE ON (sequence, modifications, nterm, cterm).
+(It is strictly increasing in (mass, sequence, modifications, nterm, cterm): `reorder_strict`.) -/
 theorem db_sorted_unique (l : List (DbPep α)) :
     (reorder l).Pairwise (fun a b => a.core.mono ≤ b.core.mono) ∧
     (reorder l).Pairwise (fun a b => keyEq a b = false) := by
-  have h := reorder_strict l
-  refine ⟨h.imp (fun h => mono_le_of_keyLt h), h.imp (fun {a b} h => ?_)⟩
+  refine ⟨(reorder_strict l).imp (fun h => mono_le_of_mkLt h), (reorder_keyNe l).imp (fun {a b} h => ?_)⟩
   cases hk : keyEq a b with
   | false => rfl
-  | true =>
-    have := (lawful_cmpK.eq_iff _ _).2 ((keyEq_iff a b).1 hk)
-    unfold KeyLt at h; rw [this] at h; cases h
+  | true => exact absurd ((keyEq_iff a b).1 hk) h
 
 example : ∃ l : List (DbPep Nat), (reorder l).length < l.length ∧ 1 < (reorder l).length :=
   ⟨Ex.l, by
@@ -906,6 +1015,7 @@ theorem db_entries_proteins_decoy (l : List (DbPep α)) :
       intro x; rw [← hmem x, hsl]; simp
     refine ⟨fun e he => ?_, fun p hp => ?_⟩
     · obtain ⟨e0, he0, rfl⟩ := List.mem_map.1 he
+      replace he0 : e0 ∈ dedupGo k rest := List.mem_mergeSort.1 he0
       obtain ⟨m1, m2, m3⟩ := m e0 he0
       simp only [keyOf_finish, mem_finish_proteins]
       refine ⟨?_, fun a => ?_, ?_⟩
@@ -931,24 +1041,27 @@ theorem db_entries_proteins_decoy (l : List (DbPep α)) :
         · intro h
           exact ⟨fun hk => h k ((hmem' k).2 (Or.inl rfl)) hk, fun p hp hk => h p ((hmem' p).2 (Or.inr hp)) hk⟩
     · obtain ⟨e, he, hke⟩ := c p (by rw [← hsl]; exact (hmem p).2 hp)
-      exact ⟨finishProteins e, List.mem_map.2 ⟨e, he, rfl⟩, by rw [keyOf_finish, hke]⟩
+      exact ⟨finishProteins e, List.mem_map.2 ⟨e, List.mem_mergeSort.2 he, rfl⟩, by rw [keyOf_finish, hke]⟩
 
 /-- the per-occurrence attributes of an entry: `semi_enzymatic` is the conjunction, `missed_cleavages` and
-`position` are the least values (attained) over the elements of `l` with the entry's key -/
+`position` and the mass are the least values (attained) over the elements of `l` with the entry's key -/
 theorem db_entries_fields (l : List (DbPep α)) :
     ∀ e ∈ reorder l,
       (e.semi = true ↔ ∀ p ∈ l, keyOf p = keyOf e → p.semi = true) ∧
       ((∀ p ∈ l, keyOf p = keyOf e → e.mc ≤ p.mc) ∧ ∃ p ∈ l, keyOf p = keyOf e ∧ e.mc = p.mc) ∧
       ((∀ p ∈ l, keyOf p = keyOf e → pos6Rank e.core.position ≤ pos6Rank p.core.position) ∧
-        ∃ p ∈ l, keyOf p = keyOf e ∧ e.core.position = p.core.position) := by
+        ∃ p ∈ l, keyOf p = keyOf e ∧ e.core.position = p.core.position) ∧
+      ((∀ p ∈ l, keyOf p = keyOf e → e.core.mono ≤ p.core.mono) ∧
+        ∃ p ∈ l, keyOf p = keyOf e ∧ e.core.mono = p.core.mono) := by
   intro e he
   unfold reorder at he
   obtain ⟨e0, he0, rfl⟩ := List.mem_map.1 he
+  replace he0 : e0 ∈ dedupBy (l.mergeSort keyLe) := List.mem_mergeSort.1 he0
   obtain ⟨c0, cs, hc, rfl⟩ := dedupBy_fold _ (sorted_mergeSort_key l) e0 he0
   have hcl : ∀ p, p ∈ c0 :: cs ↔ p ∈ l ∧ keyOf p = keyOf (mergeAll c0 cs) := by
     intro p; rw [← hc, mem_classOf, List.mem_mergeSort]
   simp only [keyOf_finish]
-  refine ⟨?_, ?_, ?_⟩
+  refine ⟨?_, ?_, ?_, ?_⟩
   · show (mergeAll c0 cs).semi = true ↔ _
     rw [semi_mergeAll, List.all_eq_true]
     constructor
@@ -958,12 +1071,14 @@ theorem db_entries_fields (l : List (DbPep α)) :
     exact ⟨fun q hq hk => h1 q ((hcl q).2 ⟨hq, hk⟩), p, ((hcl p).1 hp).1, ((hcl p).1 hp).2, h2⟩
   · obtain ⟨h1, p, hp, h2⟩ := min_mergeAll (fun p => pos6Rank p.core.position) pos_merge cs c0
     exact ⟨fun q hq hk => h1 q ((hcl q).2 ⟨hq, hk⟩), p, ((hcl p).1 hp).1, ((hcl p).1 hp).2, pos6Rank_inj h2⟩
+  · obtain ⟨h1, p, hp, h2⟩ := mono_mergeAll cs c0
+    exact ⟨fun q hq hk => h1 q ((hcl q).2 ⟨hq, hk⟩), p, ((hcl p).1 hp).1, ((hcl p).1 hp).2, h2⟩
 
 /-- **C08.db_entries_exact** — for ANY vector `l` handed to `reorder_peptides`, every entry `e` of the result
 is determined by the elements of `l` that carry its key (there is at least one): its protein list has exactly
 their accessions; it is a decoy iff all of them are; it is semi-enzymatic iff all of them are; its
-`missed_cleavages` and `position` are the least among theirs (and attained); and every element of `l` is
-represented by an entry with its key. -/
+`missed_cleavages`, `position` and mass are the least among theirs (and attained); and every element of `l` is
+represented by an entry with its key (the key being sequence, modifications, nterm, cterm — no mass). -/
 theorem db_entries_exact (l : List (DbPep α)) :
     (∀ e ∈ reorder l,
       (∃ p ∈ l, keyOf p = keyOf e) ∧
@@ -972,42 +1087,65 @@ theorem db_entries_exact (l : List (DbPep α)) :
       (e.semi = true ↔ ∀ p ∈ l, keyOf p = keyOf e → p.semi = true) ∧
       ((∀ p ∈ l, keyOf p = keyOf e → e.mc ≤ p.mc) ∧ ∃ p ∈ l, keyOf p = keyOf e ∧ e.mc = p.mc) ∧
       ((∀ p ∈ l, keyOf p = keyOf e → pos6Rank e.core.position ≤ pos6Rank p.core.position) ∧
-        ∃ p ∈ l, keyOf p = keyOf e ∧ e.core.position = p.core.position)) ∧
+        ∃ p ∈ l, keyOf p = keyOf e ∧ e.core.position = p.core.position) ∧
+      ((∀ p ∈ l, keyOf p = keyOf e → e.core.mono ≤ p.core.mono) ∧
+        ∃ p ∈ l, keyOf p = keyOf e ∧ e.core.mono = p.core.mono)) ∧
     (∀ p ∈ l, ∃ e ∈ reorder l, keyOf e = keyOf p) := by
   refine ⟨fun e he => ?_, (db_entries_proteins_decoy l).2⟩
   obtain ⟨a1, a2, a3⟩ := (db_entries_proteins_decoy l).1 e he
-  obtain ⟨b1, b2, b3⟩ := db_entries_fields l e he
-  exact ⟨a1, a2, a3, b1, b2, b3⟩
+  obtain ⟨b1, b2, b3, b4⟩ := db_entries_fields l e he
+  exact ⟨a1, a2, a3, b1, b2, b3, b4⟩
 
-/-- **C08.reorder_sort_irrelevant** — the database does not depend on how the (unstable) sort arranges
-key-equal duplicates: ANY arrangement `s` of the vector that is sorted by the key — whichever duplicate comes
-first in each class — yields, after `dedup_by` and the protein clean-up, exactly the database of the model.
-Together with `comparator_off_duplicates` this discharges the stable-sort choice of the model: under assumption
-A-sort the result of the real sort is such an `s`. -/
-theorem reorder_sort_irrelevant (l s : List (DbPep α)) (hp : s.Perm l) (hs : s.Pairwise KeyLe) :
-    (dedupBy s).map finishProteins = reorder l :=
-  dedup_canonical s (l.mergeSort keyLe) (hp.trans (List.mergeSort_perm l _).symm) hs (sorted_mergeSort_key l)
+theorem eq_of_perm_of_strict {X Y : List (DbPep α)} (h : X.Perm Y) (hx : X.Pairwise MKLt) (hy : Y.Pairwise MKLt) :
+    X = Y := by
+  apply List.Perm.eq_of_pairwise (le := MKLt) _ hx hy h
+  intro a b _ _ hab hba
+  exfalso
+  have := lawful_cmpMK.lt_trans _ _ _ hab hba
+  rw [lawful_cmpMK.refl] at this; cases this
 
-/-- non-vacuity: `Ex.l` with its two key-equal duplicates swapped is another key-sorted arrangement -/
-example : ∃ s : List (DbPep Nat), s ≠ Ex.l ∧ s.Perm Ex.l ∧ s.Pairwise KeyLe ∧
+/-- **C08.reorder_sort_irrelevant** — the database does not depend on what the two (unstable) sorts of
+`reorder_peptides` do with elements they do not separate: for ANY arrangement `s` of the input that is sorted by
+the identity key — whichever duplicate comes first in each class — and ANY arrangement `s2` of the merged forms
+that is sorted by (mass, identity), the result after the protein clean-up is exactly the database of the model. -/
+theorem reorder_sort_irrelevant (l s s2 : List (DbPep α)) (hp : s.Perm l) (hs : s.Pairwise KeyLe)
+    (hp2 : s2.Perm (dedupBy s)) (hs2 : s2.Pairwise MKLe) : s2.map finishProteins = reorder l := by
+  have hc := dedup_canonical s (l.mergeSort keyLe) (hp.trans (List.mergeSort_perm l _).symm) hs (sorted_mergeSort_key l)
+  have hperm : (s2.map finishProteins).Perm (reorder l) := by
+    unfold reorder
+    refine (hp2.map _).trans ?_
+    rw [hc]
+    exact ((List.mergeSort_perm _ _).map _).symm
+  apply eq_of_perm_of_strict hperm _ (reorder_strict l)
+  apply strict_of_sorted_ne
+  · rw [List.pairwise_map]
+    exact hs2.imp (fun h => by simpa [MKLe, mkeyOf_finish] using h)
+  · exact pairwise_keyNe_perm hperm.symm (reorder_keyNe l)
+
+/-- non-vacuity: `Ex.l` with its two key-equal duplicates swapped is another key-sorted arrangement; its merged
+    forms `[GK, [+42]-GK]` are already sorted by (mass, identity) -/
+example : ∃ s : List (DbPep Nat), s ≠ Ex.l ∧ s.Perm Ex.l ∧ s.Pairwise KeyLe ∧ (dedupBy s).Pairwise MKLe ∧
     (dedupBy s).map finishProteins = reorder Ex.l := by
-  refine ⟨[Ex.mk 203 none true .internal [[80, 49], [80, 50]], Ex.mk 203 none false .nterm [[80, 50]],
-    Ex.mk 245 (some 42) true .nterm [[81]]], by decide, ?_, ?_, ?_⟩
-  · exact List.Perm.swap _ _ _
-  · have : ∀ a b : DbPep Nat, KeyLe a b ↔ keyLe a b = true := by
-      intro a b; simp [KeyLe, keyLe, cmpKey_eq]
+  have hk : ∀ a b : DbPep Nat, KeyLe a b ↔ keyLe a b = true := by
+    intro a b; simp [KeyLe, keyLe, cmpKey_eq]
+  have hm : ∀ a b : DbPep Nat, MKLe a b ↔ massKeyLe a b = true := by
+    intro a b; simp [MKLe, massKeyLe, cmpMassKey_eq]
+  have hs : List.Pairwise (KeyLe (α := Nat))
+      [Ex.mk 203 none true .internal [[80, 49], [80, 50]], Ex.mk 203 none false .nterm [[80, 50]],
+       Ex.mk 245 (some 42) true .nterm [[81]]] := by
     have h : List.Pairwise (fun a b : DbPep Nat => keyLe a b = true)
         [Ex.mk 203 none true .internal [[80, 49], [80, 50]], Ex.mk 203 none false .nterm [[80, 50]],
          Ex.mk 245 (some 42) true .nterm [[81]]] := by decide
-    exact h.imp (fun h => (this _ _).2 h)
-  · apply reorder_sort_irrelevant
-    · exact List.Perm.swap _ _ _
-    · have : ∀ a b : DbPep Nat, KeyLe a b ↔ keyLe a b = true := by
-        intro a b; simp [KeyLe, keyLe, cmpKey_eq]
-      have h : List.Pairwise (fun a b : DbPep Nat => keyLe a b = true)
-          [Ex.mk 203 none true .internal [[80, 49], [80, 50]], Ex.mk 203 none false .nterm [[80, 50]],
-           Ex.mk 245 (some 42) true .nterm [[81]]] := by decide
-      exact h.imp (fun h => (this _ _).2 h)
+    exact h.imp (fun h => (hk _ _).2 h)
+  have hs2 : List.Pairwise (MKLe (α := Nat))
+      (dedupBy [Ex.mk 203 none true .internal [[80, 49], [80, 50]], Ex.mk 203 none false .nterm [[80, 50]],
+       Ex.mk 245 (some 42) true .nterm [[81]]]) := by
+    have h : List.Pairwise (fun a b : DbPep Nat => massKeyLe a b = true)
+        (dedupBy [Ex.mk 203 none true .internal [[80, 49], [80, 50]], Ex.mk 203 none false .nterm [[80, 50]],
+         Ex.mk 245 (some 42) true .nterm [[81]]]) := by decide
+    exact h.imp (fun h => (hm _ _).2 h)
+  exact ⟨_, by decide, List.Perm.swap _ _ _, hs, hs2,
+    reorder_sort_irrelevant _ _ _ (List.Perm.swap _ _ _) hs (List.Perm.refl _) hs2⟩
 
 /-- non-vacuity: in `Ex.l` the first entry merges a target listing `P2` and a decoy listing `P1, P2`:
     it lists `P1, P2` and is a target -/
@@ -1044,65 +1182,48 @@ theorem massOk_dbForms (h2o : Rat) (table : List Rat) (pos : C06.Position) (seq 
   obtain ⟨hseq, _, _, hm⟩ := C06.mass_formula h2o table pos seq vars statics max p hp f hfa
   simp only [MassOk, hseq, hm]
 
-/-- **C08.comparator_off_duplicates** — on mass-consistent peptides whose C-terminal modification, if present,
-is non-zero, two peptides with DIFFERENT full keys (mass, sequence, modifications, nterm, cterm) are ordered by
-the code's comparator exactly as by the lexicographic order on the full key: they are already separated by
-(mass, sequence, modifications, nterm) — if those four agree, mass consistency forces the C-terminal
-modifications to agree too — so the faulty last clause (`self.cterm` vs `other.nterm`) is never consulted.
-Exact arithmetic; two different C-terminal masses that round to the same f32 total are not covered. -/
-theorem comparator_off_duplicates (base : List Nat → Rat) (a b : DbPep Rat)
-    (ha : MassOk base a) (hb : MassOk base b)
-    (za : a.core.cterm ≠ some 0) (zb : b.core.cterm ≠ some 0)
-    (hne : keyOf a ≠ keyOf b) : cmpActual a b = cmpKey a b := by
-  unfold cmpActual cmpKey
-  cases h1 : cmpOf a.core.mono b.core.mono <;> simp only [Ordering.then]
-  cases h2 : lexList cmpNat a.core.sequence b.core.sequence <;> simp only []
-  cases h3 : lexList cmpOf a.core.mods b.core.mods <;> simp only []
-  cases h4 : cmpOpt cmpOf a.core.nterm b.core.nterm <;> simp only []
-  exfalso
-  have e1 := (lawful_cmpOf.eq_iff _ _).1 h1
-  have e2 := ((lawful_lexList lawful_cmpNat).eq_iff _ _).1 h2
-  have e3 := ((lawful_lexList lawful_cmpOf).eq_iff _ _).1 h3
-  have e4 := ((lawful_cmpOpt lawful_cmpOf).eq_iff _ _).1 h4
+/-- **C08.single_build_mass_determined** — among mass-consistent peptides (everything ONE `Parameters::digest`
+produces: `massOk_dbForms`, and `massOk_groupPeptides` for the reversed decoys) the identity determines the mass:
+equal (sequence, modifications, nterm, cterm) have equal masses. Hence dropping the mass from the merge test and
+taking the minimum mass of a class changes nothing inside one build (exact arithmetic; in f32 the same holds
+because equal identities are summed in the same order) — it only matters when peptides of DIFFERENT builds are
+merged, where a generated decoy carries the sum of its target's residue order. -/
+theorem single_build_mass_determined (base : List Nat → Rat) (a b : DbPep Rat)
+    (ha : MassOk base a) (hb : MassOk base b) (hk : keyOf a = keyOf b) : a.core.mono = b.core.mono := by
   unfold MassOk at ha hb
-  rw [e2, e3, e4] at ha
-  have hc : a.core.cterm.getD 0 = b.core.cterm.getD 0 := by linarith
-  have e5 : a.core.cterm = b.core.cterm := by
-    cases hca : a.core.cterm with
-    | none =>
-      cases hcb : b.core.cterm with
-      | none => rfl
-      | some y =>
-        rw [hca, hcb] at hc; simp only [Option.getD] at hc
-        exact absurd (by rw [hcb, ← hc]) zb
-    | some x =>
-      cases hcb : b.core.cterm with
-      | none =>
-        rw [hca, hcb] at hc; simp only [Option.getD] at hc
-        exact absurd (by rw [hca, hc]) za
-      | some y => rw [hca, hcb] at hc; simp only [Option.getD] at hc; rw [hc]
-  apply hne
-  simp only [keyOf, e1, e2, e3, e4, e5]
+  simp only [keyOf, Prod.mk.injEq] at hk
+  obtain ⟨e1, e2, e3, e4⟩ := hk
+  rw [ha, hb, e1, e2, e3, e4]
 
-/-- non-vacuity: an acetylated and a plain copy of the same peptide have different keys and are
-    mass-consistent; the comparator orders them (by mass) as the key order does -/
-example :
-    let a : DbPep Rat := ⟨false, ⟨.nterm, [71, 75], [0, 0], none, none, 203⟩, 0, false, [[80]]⟩
-    let b : DbPep Rat := ⟨false, ⟨.nterm, [71, 75], [0, 0], some 42, none, 245⟩, 0, false, [[80]]⟩
-    MassOk (fun _ => 203) a ∧ MassOk (fun _ => 203) b ∧ keyOf a ≠ keyOf b ∧ cmpActual a b = cmpKey a b := by
-  intro a b
-  have ha : MassOk (fun _ => 203) a := by norm_num [MassOk, a]
-  have hb : MassOk (fun _ => 203) b := by norm_num [MassOk, b]
-  have hne : keyOf a ≠ keyOf b := by simp [keyOf, a, b]
-  exact ⟨ha, hb, hne, comparator_off_duplicates _ a b ha hb (by simp [a]) (by simp [b]) hne⟩
+/-- non-vacuity: two copies of `GK` from different positions -/
+example : MassOk (fun _ => 203) (⟨false, ⟨.nterm, [71, 75], [0, 0], none, none, 203⟩, 0, false, [[80]]⟩ : DbPep Rat) ∧
+    MassOk (fun _ => 203) (⟨true, ⟨.internal, [71, 75], [0, 0], none, none, 203⟩, 1, true, [[81]]⟩ : DbPep Rat) := by
+  constructor <;> norm_num [MassOk]
 
-/-- **C08.comparator_faulty_on_duplicates** — on key-equal duplicates the comparator of the code is not
-asymmetric: two copies of `[+42]-GK` (e.g. one from an N-terminal and one from an internal occurrence) compare
-`Less` in BOTH directions, because the last clause compares `a.cterm = None` with `b.nterm = Some 42`.
-Hence `par_sort_unstable_by` runs outside its contract on such inputs (assumption A-sort). -/
-theorem comparator_faulty_on_duplicates :
-    ∃ a b : DbPep Nat, keyOf a = keyOf b ∧ cmpActual a b = .lt ∧ cmpActual b a = .lt ∧ cmpKey a b = .eq :=
-  ⟨Ex.mk 245 (some 42) false .nterm [[80, 49]], Ex.mk 245 (some 42) false .internal [[80, 50]], by decide, by decide, by decide, by decide⟩
+/-- **C08.comparator_total_preorder** — the repaired `Peptide::initial_sort` (`cmpKey`) and the comparator of the
+mass sort (`cmpMassKey`) are total pre-orders: reflexive, antisymmetric up to `swap`, transitive; and `cmpKey`
+answers `Equal` exactly on equal (sequence, modifications, nterm, cterm) — the test of `dedup_by` —, `cmpMassKey`
+exactly when moreover the masses are equal. (Before the repair the last clause compared `self.cterm` with
+`other.nterm`: two copies of a form with a terminal modification compared `Less`, or `Greater`, in BOTH
+directions.) -/
+theorem comparator_total_preorder {α : Type} [LinearOrder α] (a b c : DbPep α) :
+    cmpKey a a = .eq ∧ cmpKey b a = (cmpKey a b).swap ∧
+    (cmpKey a b ≠ .gt → cmpKey b c ≠ .gt → cmpKey a c ≠ .gt) ∧
+    (cmpKey a b = .eq ↔ keyOf a = keyOf b) ∧
+    cmpMassKey a a = .eq ∧ cmpMassKey b a = (cmpMassKey a b).swap ∧
+    (cmpMassKey a b ≠ .gt → cmpMassKey b c ≠ .gt → cmpMassKey a c ≠ .gt) ∧
+    (cmpMassKey a b = .eq ↔ a.core.mono = b.core.mono ∧ keyOf a = keyOf b) := by
+  simp only [cmpKey_eq, cmpMassKey_eq]
+  refine ⟨lawful_cmpK.refl _, lawful_cmpK.swap _ _, lawful_cmpK.le_trans, lawful_cmpK.eq_iff _ _,
+    lawful_cmpMK.refl _, lawful_cmpMK.swap _ _, lawful_cmpMK.le_trans, ?_⟩
+  rw [lawful_cmpMK.eq_iff]
+  simp [mkeyOf]
+
+/-- non-vacuity: on two copies of `[+42]-GK` (one from an N-terminal, one from an internal occurrence) the
+    comparator now answers `Equal` in both directions -/
+example : cmpKey (Ex.mk 245 (some 42) false .nterm [[80, 49]]) (Ex.mk 245 (some 42) false .internal [[80, 50]]) = .eq ∧
+    cmpKey (Ex.mk 245 (some 42) false .internal [[80, 50]]) (Ex.mk 245 (some 42) false .nterm [[80, 49]]) = .eq := by
+  decide
 
 end comparator
 
@@ -1206,11 +1327,11 @@ example : buildWith Ex.cfg Ex.fasta List.reverse = buildDb Ex.cfg Ex.fasta ∧ (
 
 /-- **C08.db_canonical** — whenever the build succeeds, the database is `reorder` of the vector `pre` of
 modified forms produced from the digest groups, and therefore: sorted by mass; no two entries with the same
-(mass, sequence, modifications, nterm, cterm); every protein list strictly increasing (a sorted set); every
+(sequence, modifications, nterm, cterm); every protein list strictly increasing (a sorted set); every
 entry's protein list is exactly the union of the protein lists of the forms in `pre` with its key, it is a
 decoy / semi-enzymatic iff all of them are, its `missed_cleavages` / `position` are the least among theirs,
-every form in `pre` is represented, and ANY key-sorted arrangement of `pre` (whatever the unstable sort does
-inside a class of key-equal duplicates) gives this same database.
+its mass is the least of theirs, every form in `pre` is represented, and ANY arrangement the two unstable sorts
+may return (of `pre` by identity, of the merged forms by (mass, identity)) gives this same database.
 (The link to the FASTA records — group protein lists = accessions of the per-protein digests — is
 `db_canonical_sources` in `Props/C08Sources.lean`.) -/
 theorem db_canonical (cfg : Cfg Rat) (t : List (C05.Seq × C05.Seq)) (db : List (DbPep Rat))
@@ -1227,9 +1348,12 @@ theorem db_canonical (cfg : Cfg Rat) (t : List (C05.Seq × C05.Seq)) (db : List 
         (e.semi = true ↔ ∀ p ∈ pre, keyOf p = keyOf e → p.semi = true) ∧
         ((∀ p ∈ pre, keyOf p = keyOf e → e.mc ≤ p.mc) ∧ ∃ p ∈ pre, keyOf p = keyOf e ∧ e.mc = p.mc) ∧
         ((∀ p ∈ pre, keyOf p = keyOf e → pos6Rank e.core.position ≤ pos6Rank p.core.position) ∧
-          ∃ p ∈ pre, keyOf p = keyOf e ∧ e.core.position = p.core.position)) ∧
+          ∃ p ∈ pre, keyOf p = keyOf e ∧ e.core.position = p.core.position) ∧
+        ((∀ p ∈ pre, keyOf p = keyOf e → e.core.mono ≤ p.core.mono) ∧
+          ∃ p ∈ pre, keyOf p = keyOf e ∧ e.core.mono = p.core.mono)) ∧
       (∀ p ∈ pre, ∃ e ∈ db, keyOf e = keyOf p) ∧
-      (∀ s : List (DbPep Rat), s.Perm pre → s.Pairwise KeyLe → (dedupBy s).map finishProteins = db) := by
+      (∀ s s2 : List (DbPep Rat), s.Perm pre → s.Pairwise KeyLe → s2.Perm (dedupBy s) → s2.Pairwise MKLe →
+        s2.map finishProteins = db) := by
   unfold buildDb buildWith at h
   cases hg : groupDigests (fastaDigest cfg.par cfg.tag cfg.gen t) with
   | none => rw [hg] at h; simp at h
@@ -1238,7 +1362,8 @@ theorem db_canonical (cfg : Cfg Rat) (t : List (C05.Seq × C05.Seq)) (db : List 
     simp only [Option.map_some, Option.some.injEq, id] at h
     subst h
     refine ⟨gs, rfl, rfl, (db_sorted_unique _).1, (db_sorted_unique _).2, db_proteins_sorted_set _,
-      (db_entries_exact _).1, (db_entries_exact _).2, fun s hp hs => reorder_sort_irrelevant _ s hp hs⟩
+      (db_entries_exact _).1, (db_entries_exact _).2,
+      fun s s2 hp hs hp2 hs2 => reorder_sort_irrelevant _ s s2 hp hs hp2 hs2⟩
 
 /-- non-vacuity: the hypothesis is met by the two-protein FASTA of `Ex` (exact rationals) -/
 example : ∃ db, buildDb (⟨Ex.par, [114, 101, 118, 95], true, 18, Ex.table.map (fun n => (n : Rat)),
